@@ -4,6 +4,8 @@ import Casket.Props.C04
 import Casket.Props.C05
 import Casket.Props.C06
 import Casket.Props.C09
+import Casket.Props.C10
+import Casket.Props.C11
 import Casket.Props.C12
 import Casket.Props.C13
 import Casket.Props.C14
